@@ -8,8 +8,10 @@
 (* (m' = AbsMap(data)), so every step is judged on its own.  ONE verdict per   *)
 (* case is printed when the case ends (codes = union, detail.items = the       *)
 (* failing steps).  msb0_step (computed for failing steps only) tells whether  *)
-(* the step is a correct step under the LittleEndianMsb0 layout -- it          *)
-(* characterises HOW a step failed and never produces a verdict itself.        *)
+(* the step is a correct step under the LittleEndianMsb0 layout, and           *)
+(* pinned_writer_step whether the bytes are exactly what the snapshot's        *)
+(* transcribed writer produces -- they characterise HOW a step failed (for the *)
+(* known-findings matcher) and never produce a verdict themselves.             *)
 EXTENDS TraceBase, P_C10
 VARIABLES l, fb, m, prev, acc, cur, st
 vars == <<l, fb, m, prev, acc, cur, st>>
@@ -23,7 +25,8 @@ Item(codes, f, i, op, before, data) ==
   [codes |-> codes,
    d |-> [i |-> i, k |-> op.k,
           msb0_step |-> Len(data) = f.n /\ Len(before) = f.n
-                        /\ AbsMap(LeView(f), data) = MApply(f, AbsMap(LeView(f), before), op)]]
+                        /\ AbsMap(LeView(f), data) = MApply(f, AbsMap(LeView(f), before), op),
+          pinned_writer_step |-> Len(before) = f.n /\ data = ApplyT(f, before, op, "pinned")]]
 Known == {"case", "fb", "op", "panic"}
 NewOp == [k |-> "new", p |-> <<0, 0>>, c |-> 0, px |-> <<>>, area |-> Zero]
 
@@ -42,7 +45,7 @@ Next == /\ l <= NRec
                   \* Framebuffer::new(): nothing written yet, every pixel is the all-zero colour
                   LET f == [bpp |-> e.bpp, ord |-> e.ord, w |-> e.w, h |-> e.h, n |-> e.n]
                       codes == ObsFails(f, MZero(f), e.data, TRUE, e)
-                      a == IF codes = {} THEN acc ELSE Append(acc, [codes |-> codes, d |-> [i |-> 0, k |-> "new", msb0_step |-> FALSE]])
+                      a == IF codes = {} THEN acc ELSE Append(acc, [codes |-> codes, d |-> [i |-> 0, k |-> "new", msb0_step |-> FALSE, pinned_writer_step |-> FALSE]])
                   IN /\ fb' = f /\ prev' = e.data /\ acc' = a /\ cur' = cur /\ st' = st
                      /\ m' = IF codes = {} \/ Len(e.data) # f.n THEN MZero(f) ELSE AbsMap(f, e.data)
                      /\ IF l = NRec THEN Flush(cur, a) /\ PrintT("STAT " \o ToJson(st)) ELSE TRUE
